@@ -882,7 +882,7 @@ def c02(run):
 
 @check("C23")
 def c23(run):
-    run.rec_leg("asm", ["asm", "faults=10"], verdict=["panic", "labels", "extflag", "labelquery", "unknown-event"])
+    run.rec_leg("asm", ["asm", "faults=10"], verdict=["panic", "labels", "extflag", "labelquery", "symtab-rejected", "unknown-event"])
     return run.finish(
         rule="for every generated program whose pass 1 succeeds: every label of the program (definitions, operands, "
              "externals, labels on .end lines, repeated labels on one address) queried in four spellings plus near-miss and "
@@ -897,12 +897,15 @@ def c23(run):
 def c24(run):
     run.mc_leg("mc_asm", "MC_Asm", "MC_Asm5.cfg" if run.tier == "thorough" else "MC_Asm3.cfg", workers=16, timeout=3000)
     run.rec_leg("asm", ["asm", "faults=10"], verdict=["panic", "lines", "linequery", "lines-not-injective", "unknown-event"])
+    run.rec_leg("link", ["link", "alldbg=1"], verdict=["panic", "dbg-lines", "unknown-event"])
     return run.finish(
         rule="generated programs assembled with debug symbols (statements on varied lines, label-only lines, comments, "
              "blank lines, CRLF, .blkw/.stringz of varied sizes, .external inside and outside blocks): line_iter must equal "
              "LineSpec = {(line of the statement, its first address) : statement occupies memory}; lookup_line for every "
              "line up to count+2 and rev_lookup_line for every mapped address, its neighbours and random addresses must "
-             "agree with it; LineSpec itself must be injective both ways",
+             "agree with it; LineSpec itself must be injective both ways.  The line tables of linked debug objects (the "
+             "linker shifts the second file's lines) are checked through the text of the lines: every mapped address of a "
+             "link result reads the line text it had in the file it came from",
         level_note="line numbers are computed by TLC from the source bytes (number of LF before the statement)")
 
 
